@@ -30,6 +30,7 @@ int main(int argc, char **argv) {
     g_rng = seed * 0x9E3779B97F4A7C15ULL + 12345;
     g_ent = seed ^ 0xDEADBEEFCAFEF00DULL;
     if (getenv("VERIF_RESP_DUMP")) g_resp_dump = fopen(getenv("VERIF_RESP_DUMP"), "w");
+    { extern void verif_snapshot_statics(void); verif_snapshot_statics(); }   /* load-time image of the TPM 2 globals (new-process emulation) */
     TPMLIB_SetDebugLevel(0);
     tr("meta prop=%s seed=%llu tier=%s", prop, (unsigned long long)seed, argv[3]);
     if (!strcmp(prop, "C16")) scen_c16(thorough ? 400 : 40, thorough ? 120 : 50);
